@@ -29,6 +29,9 @@ func boolFieldGuards(f *ssa.Function, fld *types.Var) []kit.Guard {
 }
 
 func checkC16(p *load.Program, r *kit.Report) {
+	r.Rule("RESULT-FLOW", "BlockDownloader.Run returns the value it received on Complete; the on-complete thread hands onDownloaderCompleted the value it received from the download thread", 3)
+	checkRunReturnsReceived(p, r, "RESULT-FLOW")
+	checkCompletedGetsThreadResult(p, r, "RESULT-FLOW")
 	r.Rule("COUNT-ALL", "BlockManager.Downloaders(hash) lists every registered downloader of the hash: the only way past a matching downloader is the append", 1)
 	checkDownloadersCountsAll(p, r, "COUNT-ALL")
 	r.NotDecided = "interleavings proper (who wins which select), goroutine leaks inside the dependency's thread objects, retry timing; that HandleBlock is activated at most once per downloader is an assumption recorded from the node side (completeBlock clears the handler)."
